@@ -35,6 +35,10 @@ theorem allowed_to_idle (a : S) : allowedEdge a .idle = true := by cases a <;> r
   unfold armSession; split <;> rfl
 @[simp] theorem armSession_deleted (c : Cfg) (s : St) (n : Nat) : (armSession c s n).deleted = s.deleted := by
   unfold armSession; split <;> rfl
+@[simp] theorem armSession_idleHold (c : Cfg) (s : St) (n : Nat) : (armSession c s n).idleHold = s.idleHold := by
+  unfold armSession; split <;> rfl
+@[simp] theorem armSession_idleT (c : Cfg) (s : St) (n : Nat) : (armSession c s n).idleT = s.idleT := by
+  unfold armSession; split <;> rfl
 @[simp] theorem touch_st (s : St) : (touch s).st = s.st := by unfold touch; split <;> rfl
 @[simp] theorem touch_admin (s : St) : (touch s).admin = s.admin := by unfold touch; split <;> rfl
 @[simp] theorem touch_rib (s : St) : (touch s).rib = s.rib := by unfold touch; split <;> rfl
